@@ -22,7 +22,6 @@ import (
 // c01PodCtl restricts pod operations (concurrent unit) and collects classification facts.
 type c01PodCtl struct {
 	dests         []string        // groups a pod may be sent to (existing non-parent groups, default, system)
-	noMigrateFrom map[string]bool // source groups MigratePod must not be called for (groups deleted concurrently)
 	staleMigrate  []string        // out/in groups of migrations that used a stale cached pod object
 	reserved      bool            // a reserve took effect
 }
@@ -135,18 +134,20 @@ func (e *c01Env) podOp(r *kit.Rand, p *c01Pod, ctl *c01PodCtl) string {
 			return "pod-reserve-not-held"
 		}
 	}
-	kind := r.Weighted(32, 9, 10, 16, 11, 7, 4)
+	kind := r.Weighted(32, 9, 10, 16, 11, 0, 4)
+	if p.group == extension.DefaultQuotaName && r.Pct(30) {
+		// MigratePod as the plugin's periodic migrateDefaultQuotaGroupsPod issues it: a pod parked in the
+		// default group (its own quota was unknown when it arrived) moves to its quota once that exists
+		kind = 5
+	}
 	if (kind == 3 || kind == 4) && p.node != "" {
 		kind = 0 // a bound pod is not in a scheduling cycle
-	}
-	if kind == 5 && ctl.noMigrateFrom[p.group] {
-		kind = 0
 	}
 	switch kind {
 	case 0: // update within the group
 		old := p.cur
 		what := ""
-		if r.Pct(35) {
+		if r.Pct(50) {
 			p.req = c01GenReq(r)
 			what += " req"
 			if r.Pct(30) {
@@ -211,7 +212,13 @@ func (e *c01Env) podOp(r *kit.Rand, p *c01Pod, ctl *c01PodCtl) string {
 		p.asg = false
 		return "pod-unreserve"
 	case 5:
-		in := c01PickDest(r, ctl.dests, p.group)
+		var userLeaves []string
+		for _, d := range ctl.dests {
+			if d != extension.DefaultQuotaName && d != extension.SystemQuotaName {
+				userLeaves = append(userLeaves, d)
+			}
+		}
+		in := c01PickDest(r, userLeaves, p.group)
 		if in == "" {
 			return "pod-migrate-skipped"
 		}
@@ -408,7 +415,6 @@ func (e *c01Env) quotaOp(r *kit.Rand, rules *c01QuotaRules) (string, *c01Detach)
 		det := e.detachFacts(rules, x.name)
 		err := e.gqm.DeleteQuota(x.object(m.nd))
 		c.Op("DeleteQuota(%s) (max-limited before=%v) -> err=%v", x, det.limited, err)
-		c.Count("op_quota_delete", 1)
 		if err != nil {
 			e.failf("C01/quota/delete-refused", "DeleteQuota(%s) returned %v", x.name, err)
 		}
@@ -455,17 +461,14 @@ func (e *c01Env) quotaOp(r *kit.Rand, rules *c01QuotaRules) (string, *c01Detach)
 		ghost := &c01Group{name: c01Ghost, parent: extension.RootQuotaName}
 		err := e.gqm.DeleteQuota(ghost.object(m.nd))
 		c.Op("DeleteQuota(ghost) -> err=%v", err)
-		c.Count("op_quota_delete_unknown", 1)
 		return "quota-delete-unknown", nil
 	case 11:
 		e.gqm.ResetQuota()
 		c.Op("ResetQuota()")
-		c.Count("op_reset", 1)
 		return "quota-reset", nil
 	default:
 		rt := e.gqm.RefreshRuntime(g.name)
 		c.Op("RefreshRuntime(%s) -> %s", g.name, c01RL(rt))
-		c.Count("op_refresh_runtime", 1)
 		return "quota-refresh-runtime", nil
 	}
 }
